@@ -1172,10 +1172,11 @@ func (self Value) GetMany(pathes []PathNode, opts *Options) error {
 	if len(pathes) == 0 {
 		return nil
 	}
-	return self.getMany(pathes, opts.ClearDirtyValues, opts)
+	return self.getMany(pathes, opts.ClearDirtyValues, opts, false)
 }
 
-func (self Value) getMany(pathes []PathNode, clearDirty bool, opts *Options) error {
+// wholePair makes the nodes got from a MAP the whole pairs instead of the values
+func (self Value) getMany(pathes []PathNode, clearDirty bool, opts *Options, wholePair bool) error {
 	if clearDirty {
 		for i := range pathes {
 			pathes[i].Node = Node{}
@@ -1188,7 +1189,7 @@ func (self Value) getMany(pathes []PathNode, clearDirty bool, opts *Options) err
 	case PathIndex:
 		return self.Indexes(pathes, opts)
 	case PathStrKey, PathIntKey, PathBinKey:
-		return self.Gets(pathes, opts)
+		return self.gets(pathes, opts, wholePair)
 	default:
 		return errValue(meta.ErrUnsupportedType, fmt.Sprintf("invalid path: %#v", p), nil)
 	}
@@ -1231,14 +1232,19 @@ func (self *Value) SetMany(pathes []PathNode, opts *Options, root *Value, addres
 	// new children are inserted at the end of the current node, this is the position of that in the root's buffer
 	insertAt := rt.PtrOffset(uintptr(self.v), uintptr(root.v)) + originLen
 
-	// get original values
-	if err = self.getMany(ps.a, true, opts); err != nil {
+	// get original values. A pair of a MAP has a length of its own:
+	// it is replaced as a whole, by a new pair with the same key
+	if err = self.getMany(ps.a, true, opts, true); err != nil {
 		goto ret
 	}
 
 	// handle not found values
 	for i, a := range ps.a {
-		if a.IsUnKnown() {
+		if !a.IsUnKnown() {
+			if self.t == proto.MAP {
+				ps.b[i].Node.toPair(a.Path, self.Desc)
+			}
+		} else {
 			// the node carries no address: the end of the current node is often the end of the buffer, and a pointer
 			// behind an allocation (kept in the pooled slice) makes the garbage collector mark (or die on) the neighbouring object
 			ps.a[i].Node = errNotFoundLast(nil, self.t)
